@@ -14,16 +14,94 @@ def targs(*want):
     return lambda d: astload.template_args(d) == list(want)
 
 
+def percentile_vcs():
+    """detail::percentile (every instantiation): result = value(s) of the sorted list at position p(n-1)/100, midpoint of
+    the two neighbours when fractional; from_position is called only with indices in [0, n-1] (over the reals)"""
+    import nvwp
+    from nvwp import V
+    from wplib import IdEnvWP, reach_vc
+    hdr = astload.REPO + '/include/nano/core/stats.h'
+    docs = astload.dump(TU, 'nano::')
+    cands = [d for d in astload.find_definitions(docs, 'percentile') if len(astload.param_types(d)) == 4 and astload.template_args(d)]
+    if not cands:
+        raise astload.ExtractionError('detail::percentile: no instantiation found')
+    vcs, fns = [], []
+    for k, fn in enumerate(cands):
+        name = f'detail::percentile#{k}'
+        wp = IdEnvWP(name, real=True)
+        wp.decls.append('(declare-fun F (Int) Real)')      # from_position: the value at a position (sorted list)
+        n = wp.const('n', 'Int', 'long')
+        p = wp.const('p', 'Real', 'double')
+        wp.assume('(and (>= n 1) (<= n 70368744177664))')      # n <= 2^46: p(n-1) exactly representable at the endpoints
+        wp.assume('(and (>= p 0.0) (<= p 100.0))')
+        keys = wp.bind_params(fn)
+        wp.env[keys[0][0]] = V('begin', 'Opaque', None)
+        wp.env[keys[1][0]] = V('end', 'Opaque', None)
+        wp.env[keys[2][0]] = p
+        wp.env[keys[3][0]] = V('from_position', 'Opaque', None)
+
+        def h_distance(w, node, args, callee):
+            return V('n', 'Int', 'long')
+
+        def h_from(w, node, args, callee):
+            idx = w.ev(args[1])
+            w.oblige('from_position is called with an index in [0, n-1]', f'(and (<= 0 {idx.t}) (<= {idx.t} (- n 1)))', node)
+            return V(f'(F {idx.t})', 'Real', 'double')
+        wp.calls = [(r'^distance\|', h_distance), (r'^operator\(\)\|.*lambda', h_from),
+                    (r'^floor\|', lambda w, node, a, c: V(f'(rfloor {w.conv(w.ev(a[0]), "Real", "double").t})', 'Real', 'double')),
+                    (r'^ceil\|', lambda w, node, a, c: V(f'(rceil {w.conv(w.ev(a[0]), "Real", "double").t})', 'Real', 'double'))]
+
+        def post(w, rv):
+            pos = '(/ (* p (to_real (- n 1))) 100.0)'
+            lo = f'(to_int {pos})'
+            return [('percentile = sorted value at position p(n-1)/100, midpoint of the two neighbours when fractional',
+                     f'(= {rv.t} (ite (= (to_real {lo}) {pos}) (F {lo}) (/ (+ (F {lo}) (F (+ {lo} 1))) 2.0)))')]
+        wp.post = post
+        wp.run(fn, hdr)
+        vcs += wp.vcs(name, hdr, 'percentile position arithmetic')
+        vcs.append(reach_vc(wp, name, hdr))
+        fns.append({'c_name': name, 'cxx': 'nano::detail::percentile<' + ', '.join(astload.template_args(fn))[:70] + '>', 'file': hdr,
+                    'line': fn.get('loc', {}).get('line'), 'sha': astload.file_hash(hdr)})
+    return vcs, fns
+
+
 def build(tier):
     common = dict(self_struct='struct nv_histogram', types=TYPES, calls=STD, members=[(r'^bins\|', 'nv_hist_bins')])
     bin_f64 = Fn('histogram_bin_f64', TU, 'bin', flt='nano::histogram_t', select=targs('double'), **common)
     bin_i64 = Fn('histogram_bin_i64', TU, 'bin', flt='nano::histogram_t', select=targs('long'), **common)
     targets = [Target('bin_f64', [bin_f64], 'specs/C20/bin.h'), Target('bin_i64', [bin_i64], 'specs/C20/bin.h')]
+    ptypes = lambda *want: (lambda d: astload.param_types(d) == list(want))
+    stdmap = [(r'^advance\|', '({0} += {1})'), (r'^nth_element\|', 'nv_nth_element_f64({0}, {1}, {2})'),
+              (r'^percentile_sorted\|', 'nv_percentile({0}, {1}, {2})'), (r'^percentile\|', 'nv_percentile({0}, {1}, {2})')]
+    fps = Fn('from_position_sorted', TU, 'percentile_sorted', flt='nano::', select=ptypes('const double *', 'const double *', 'const double'),
+             lambda_index=0, extra_params=['const double* begin'], calls=stdmap)
+    fpu = Fn('from_position_unsorted', TU, 'percentile', flt='nano::', select=ptypes('double *', 'double *', 'const double'),
+             lambda_index=0, extra_params=['double* begin', 'double* end'], calls=stdmap)
+    med_s = Fn('median_sorted', TU, 'median_sorted', flt='nano::', select=ptypes('const double *', 'const double *'), calls=stdmap)
+    med = Fn('median', TU, 'median', flt='nano::', select=ptypes('double *', 'double *'), calls=stdmap)
+    hcalls = [(r'^operator\(\)\|.*tensor_vector_storage_t, (double|long), 1', '{0}.p[{1}]'),
+              (r'^upper_bound\|double \*\(double \*, double \*, const double &, \(lambda', 'nv_upper_bound_cmp({0}, {1}, {2})'),
+              (r'^distance\|', '({1} - {0})'), (r'^quiet_NaN\|', 'nv_quiet_nan()'),
+              (r'^median_sorted\|', 'nv_median_sorted_range({0}, {1})'), (r'^mean\|nano::scalar_t \(double \*, double \*', 'nv_mean_range({0}, {1}, {2})')]
+    hmembers = [(r'^size\|.*tensor_base_t<double, 1', 'nv_t1d_size'), (r'^resize\|.*tensor_vector_storage_t(, |<)double, 1', 'nv_t1d_resize'),
+                (r'^resize\|.*tensor_vector_storage_t(, |<)long, 1', 'nv_t1i_resize'), (r'^(zero|full)\|', 'nv_fill_erased()'),
+                (r'^update_bin\|', 'update_bin_cov'), (r'^mean\|.*histogram_t.*#3', 'nv_mean_range({0}, {1}, {2})')]
+    hk = dict(self_struct='struct nv_histogram', types=TYPES, calls=hcalls, members=hmembers)
+    upd = Fn('histogram_update', TU, 'update', flt='nano::histogram_t', select=targs('double *'), **hk)
+    hk_nolam = dict(hk)
+    hk_nolam.pop('self_struct')
+    updop = lambda: Fn('update_op', TU, 'update', flt='nano::histogram_t', select=targs('double *'), lambda_index=0, **hk_nolam)
+    updbin = Fn('update_bin', TU, 'update_bin', flt='nano::histogram_t', select=targs('double *'), **hk)
+    targets += [Target('histogram_update', [upd, updop()], 'specs/C20/update.h', replace=['update_op']),
+                Target('update_op', [updop()], 'specs/C20/update.h'), Target('update_bin', [updbin], 'specs/C20/update.h')]
+    targets += [Target('from_position_sorted', [fps], 'specs/C20/stats.h'), Target('from_position_unsorted', [fpu], 'specs/C20/stats.h'),
+                Target('median_sorted', [med_s], 'specs/C20/stats.h'), Target('median', [med], 'specs/C20/stats.h')]
+    pv, pf = percentile_vcs()
     return {
-        'targets': targets, 'vcs': [],
-        'decided': ['bin(v) equals the counting rule #{j: t_j <= v} for every finite real v and every integer |v| <= 2^53, for every sorted threshold list of symbolic length'],
+        'targets': targets, 'vcs': pv, 'functions': pf,
+        'decided': ['histogram_t::update: bins = thresholds+1 slots, the bins are consecutive ranges of the sorted values that tile them exactly once, a value lies in bin b only if t_{b-1} <= v < t_b, count = range length; update_bin: count/mean/median over exactly its range, NaN for an empty bin', 'the position->value lambdas of percentile_sorted (value stored at the position) and percentile (k-th smallest via nth_element); median / median_sorted are the 50th percentile', 'detail::percentile (all instantiations): result is the sorted value at position p(n-1)/100 (midpoint when fractional), positions stay in [0, n-1] (over the reals, n <= 2^46)', 'bin(v) equals the counting rule #{j: t_j <= v} for every finite real v and every integer |v| <= 2^53, for every sorted threshold list of symbolic length'],
         'not_decided': ['float value of the bin means', 'make_from_exponents (log/pow)'],
-        'assumptions': ['std::upper_bound returns the partition point of a partitioned range (assumed contract, stated at a ghost index)',
+        'assumptions': ['std::nth_element leaves at position nth the element a full sort would put there (assumed contract)', 'IEEE double treated as real for the percentile position arithmetic', 'std::upper_bound returns the partition point of a partitioned range (assumed contract, stated at a ghost index)',
                         'thresholds are sorted and not NaN (established by the constructor: std::sort)'],
         'trusted': [],
     }
